@@ -52,6 +52,10 @@ func TestC15Child(t *testing.T) {
 		if writers < 1 {
 			writers = 1
 		}
+		batch, _ := strconv.Atoi(os.Getenv("VERIF_C15_BATCH"))
+		if batch < 1 {
+			batch = 1
+		}
 		var omu sync.Mutex
 		emit := func(format string, a ...interface{}) {
 			omu.Lock()
@@ -62,23 +66,41 @@ func TestC15Child(t *testing.T) {
 		var stopped int32
 		for w := 0; w < writers; w++ {
 			go func(w int) {
-				for i := 0; atomic.LoadInt32(&stopped) == 0; i++ {
-					lv := []string{"a", []string{"x", "y", "z"}[i%3]}
-					if i%4 == 0 {
-						lv = lv[:1]
-					}
-					ch := strings.Join(lv, "/") + "/"
-					m := message.New(ssidOf(c15Contract, lv), []byte(ch), []byte(fmt.Sprintf("%s-w%d-%d-%s", tag, w, i, strings.Repeat("p", i%97))))
-					m.TTL = uint32(1000000 + i%1000)
-					emit("TRY %s %s %d %s\n", hex.EncodeToString(m.ID), ch, m.TTL, m.Payload)
-					if err := s.Store(m); err != nil {
-						emit("STOREERR %v\n", err)
-						if atomic.LoadInt32(&stopped) != 0 {
-							return
+				// batch > 1: the TRY lines of a batch are written (and flushed) first, then its messages are stored back to back
+				// without touching the shared output in between, so that the Store calls of the writers really overlap, then
+				// the ACK lines follow. An ACK is still only written after its Store has returned, a TRY before it was called.
+				for i := 0; atomic.LoadInt32(&stopped) == 0; {
+					var ms []*message.Message
+					var tries string
+					for b := 0; b < batch; b++ {
+						lv := []string{"a", []string{"x", "y", "z"}[i%3]}
+						if i%4 == 0 {
+							lv = lv[:1]
 						}
-						continue
+						ch := strings.Join(lv, "/") + "/"
+						fill := i % 97
+						if batch > 1 && i%5 == 0 {
+							fill = 500 + (i*37)%3000
+						}
+						m := message.New(ssidOf(c15Contract, lv), []byte(ch), []byte(fmt.Sprintf("%s-w%d-%d-%s", tag, w, i, strings.Repeat(string(rune('a'+w%26)), fill))))
+						m.TTL = uint32(1000000 + i%1000)
+						tries += fmt.Sprintf("TRY %s %s %d %s\n", hex.EncodeToString(m.ID), ch, m.TTL, m.Payload)
+						ms = append(ms, m)
+						i++
 					}
-					emit("ACK %s\n", hex.EncodeToString(m.ID))
+					emit("%s", tries)
+					var acks string
+					for _, m := range ms {
+						if err := s.Store(m); err != nil {
+							emit("STOREERR %v\n", err)
+							if atomic.LoadInt32(&stopped) != 0 {
+								return
+							}
+							continue
+						}
+						acks += fmt.Sprintf("ACK %s\n", hex.EncodeToString(m.ID))
+					}
+					emit("%s", acks)
 				}
 			}(w)
 		}
@@ -118,13 +140,13 @@ type c15Msg struct{ ch, ttl, payload string }
 func TestC15(t *testing.T) {
 	rec := vk.New("C15", "kill")
 	defer rec.Finish(t)
-	rec.Rule("case = one directory: 3-8 cycles of a child process storing into a real storage.SSD (TRY line, Store, ACK line, each flushed; 1 or 4 concurrent writer goroutines) ended by SIGKILL after a seeded number of acknowledgements, by SIGKILL at a seeded instant (so kills land inside Store), or by a clean stop; " +
+	rec.Rule("case = one directory: 3-8 cycles of a child process storing into a real storage.SSD (TRY line, Store, ACK line, each flushed; 1, 4 or 8 concurrent writer goroutines, the 8 reporting in batches of 16 so that their Store calls overlap) ended by SIGKILL after a seeded number of acknowledgements, by SIGKILL at a seeded instant (so kills land inside Store), or by a clean stop; " +
 		"then a fresh process pages through Query with continuation to exhaustion; checked: the store reopens every time, ACK ⊆ READ ⊆ TRY, id/channel/payload/ttl of every acknowledged message identical; non-trivial = directories with >=2 SIGKILL cycles and >=100 acknowledged stores; distinct = (kill plan, acknowledged count per cycle)")
 	self := os.Getenv("VERIF_BIN")
 	if self == "" {
 		self, _ = os.Executable()
 	}
-	n := vk.N(8, 200)
+	n := vk.N(16, 300)
 	for ci := 0; ci < n; ci++ {
 		if vk.Mine(ci) {
 			runC15(rec, ci, self)
@@ -153,11 +175,15 @@ func runC15(rec *vk.Rec, ci int, self string) {
 		k := r.Range(1, 400)
 		delay := time.Duration(r.Range(200, 60000)) * time.Microsecond
 		cmd := exec.Command(self, "-test.run", "^TestC15Child$", "-test.timeout", "0")
-		writers := 1
-		if r.Chance(50) {
+		writers, batch := 1, 1
+		switch r.Intn(4) {
+		case 1:
 			writers = 4 // concurrent publishers: a clean stop then lands while Store calls are in flight
+		case 2, 3:
+			writers, batch = 8, 16 // Store calls of several writers overlapping for real (batched reporting)
+			k *= 8
 		}
-		cmd.Env = append(os.Environ(), "VERIF_C15_MODE=store", "VERIF_C15_DIR="+dir, fmt.Sprintf("VERIF_C15_TAG=d%dc%d", ci, cy), fmt.Sprintf("VERIF_C15_WRITERS=%d", writers), "VERIF_OUT=")
+		cmd.Env = append(os.Environ(), "VERIF_C15_MODE=store", "VERIF_C15_DIR="+dir, fmt.Sprintf("VERIF_C15_TAG=d%dc%d", ci, cy), fmt.Sprintf("VERIF_C15_WRITERS=%d", writers), fmt.Sprintf("VERIF_C15_BATCH=%d", batch), "VERIF_OUT=")
 		stdin, _ := cmd.StdinPipe()
 		stdout, _ := cmd.StdoutPipe()
 		cmd.Stderr = nil
